@@ -403,6 +403,44 @@ def enum_required_use(seed):
         else:
             r = all(k)
         return r != node.negate
+    def ev_text(text, on):
+        """the constraint as written (PMS 8.2: all-of, || any-of, ^^ exactly-one-of, ?? at-most-one-of, flag? / !flag? groups), read by this
+        reference alone: a one-member group keeps the meaning of its operator (?? ( a ) holds whatever a is)"""
+        toks = text.split()
+        pos = 0
+
+        def group(op):
+            nonlocal pos
+            vals = []
+            while pos < len(toks) and toks[pos] != ")":
+                t = toks[pos]
+                pos += 1
+                if t in ("||", "^^", "??") or t == "(" or t.endswith("?"):
+                    if t != "(":
+                        assert toks[pos] == "("
+                        pos += 1
+                    inner = group(t if t != "(" else "")
+                    assert toks[pos] == ")"
+                    pos += 1
+                    if t.endswith("?") and t not in ("??",):
+                        flag = t[:-1]
+                        active = (flag[1:] not in on) if flag.startswith("!") else (flag in on)
+                        vals.append((not active) or inner)
+                    else:
+                        vals.append(inner)
+                else:
+                    vals.append((t[1:] not in on) if t.startswith("!") else (t in on))
+            if op == "||":
+                return any(vals)
+            if op == "^^":
+                return sum(vals) == 1
+            if op == "??":
+                return sum(vals) <= 1
+            return all(vals)
+        r = group("")
+        assert pos == len(toks)
+        return r
+    strings += ["?? ( a )", "?? ( a ) b", "^^ ( a )", "|| ( a )", "b? ( ?? ( a ) )", "?? ( ( a b ) )", "|| ( ( a b ) )", "?? ( !a )"]
     from pkgcore.test.misc import FakePkg
     cases, fails = 0, []
     for s in strings:
@@ -432,7 +470,7 @@ def enum_required_use(seed):
                     for bits in itertools.product((False, True), repeat=len(names)):
                         asg = dict(zip(names, bits))
                         if all(asg[f] for f in forced) and not any(asg[f] for f in forced_off if f in asg) and not any(asg[f] for f in names if f not in iuse) \
-                                and all(ev(n, {k for k, v in asg.items() if v}) for n in ds):
+                                and ev_text(s, {k for k, v in asg.items() if v}):
                             want.append(asg)
                     key = lambda d: tuple(sorted(d.items()))
                     if sorted(map(key, sols)) != sorted(map(key, want)):
@@ -447,7 +485,7 @@ def enum_required_use(seed):
                         if ideal in want and sols[0] != ideal and len(fails) < 4:
                             fails.append({"model": {"required_use": s, "prefer_true": list(prefer)},
                                           "detail": f"REQUIRED_USE {s!r} prefer_true={list(prefer)}: the preferred assignment {ideal} satisfies it but {sols[0]} came first"})
-    return {"name": "C10.find_constraint_satisfaction.bounded_enumeration", "bound": f"{len(strings)} REQUIRED_USE strings (<= 4 flags, nesting <= 3, every operator, both polarities) x IUSE variants x preferences x forced-on / forced-off flags (overlapping with the preferences), against brute force",
+    return {"name": "C10.find_constraint_satisfaction.bounded_enumeration", "bound": f"{len(strings)} REQUIRED_USE strings (<= 4 flags, nesting <= 3, every operator, both polarities) x IUSE variants x preferences x forced-on / forced-off flags (overlapping with the preferences), against brute force over the constraint as written (read by a reference reader of the REQUIRED_USE grammar, one-member groups included)",
             "cases": cases, "failures": fails}
 
 
